@@ -1,6 +1,7 @@
 import PyrollProofs.HeapSolve
 import PyrollProofs.HeapCopy
 import PyrollProofs.HeapEdit
+import PyrollProofs.HeapReuse
 import PyrollModel.Gen.C12
 
 /-!
@@ -20,7 +21,8 @@ open Heap
 /-- the producers the model runs: translated from rotator/hookimpls.py, roll_pass/hookimpls/profile.py,
 roll_pass/symmetric_roll_pass.py -/
 def P : Producers :=
-  { rot := Gen.C12.rotatorClassifiers, pass := Gen.C12.passOutClassifiers, sym := Gen.C12.symmetricClassifiers }
+  { rot := Gen.C12.rotatorClassifiers, pass := Gen.C12.passOutClassifiers, sym := Gen.C12.symmetricClassifiers,
+    reuse := Gen.C12.outReuse }
 
 /-! ## certificates about the translated source -/
 
@@ -376,5 +378,153 @@ example :
     ex1.h.next ≤ c6 ∧ (exCopy.1.h.obj c6).weak = some exCopy.2.2 ∧
     (exCopy.1.h.obj i).weak = some c6 ∧ (exCopy.1.h.obj r).weak = some c6 ∧ (exCopy.1.h.obj l).weak = some c6 ∧
     ex1.h.next ≤ i ∧ ex1.h.next ≤ r ∧ ex1.h.next ≤ l ∧ exCopy.1.h.obj 6 = ex1.h.obj 6 := by decide
+
+/-! ## 6. a re-used out-profile and the incoming profile of the CURRENT solve (the form of `Unit.init_solve`)
+
+`Unit.init_solve` keeps the out-profile of a previous solve (its root-hook results are the start values of the next
+iteration).  Which form the source has is read by the translator (`Gen.C12.outReuse`, used by `P`); every theorem above
+holds for both forms (`solveU_spec` is proved for an arbitrary `Producers.reuse`).  This section says what the form
+`handOver` (the `else:` branch) adds in C12's terms - no state of an earlier solve's caller profile leaks into a later
+solve through the re-used out-profile - and that the form `keep` does not have it. -/
+
+/-- the model with the form of `init_solve` fixed (whatever the translated source has) -/
+def Pk : Producers := { P with reuse := .keep }
+def Ph : Producers := { P with reuse := .handOver }
+
+/-- The statement, for a form `rf` of `init_solve`: a unit solved before (its out-profile `o` is re-used; no sub-unit
+owns `o`) is solved again with ANY profile `p`; afterwards `o` has under every public name that is not a root hook of
+the out-profile exactly what `p` has under it - the same reference, or nothing. -/
+def ReusedOutCurrentAfterSolve (rf : Reuse) : Prop :=
+  ∀ (fuel : Nat) (s : S) (u p o : Nat), Good s → u < s.h.next → p < s.h.next → (s.h.obj u).kind = .unit →
+    getF s.h u fOUT = some o →
+    (∀ l c, getF s.h u fSUB = some l → c ∈ (s.h.obj l).items → ¬ Owned s.h c o) →
+    ∀ g, isPublic g = true → (outRoots (s.h.obj u).tag).contains g = false →
+      getF (solveU { P with reuse := rf } (fuel + 1) s u p).1.h o g = getF s.h p g
+
+/-- the form `handOver` HAS it, for arbitrary well-formed typed heaps, units (also a pass whose pre-processor turns the
+profile), profiles, fuel and iteration counts: `init_solve` sets these entries from the incoming profile; the root
+hooks write under root-hook names only; the producers only allocate and change sets they created; a sub-solve does not
+touch an object its unit does not own (`solve_frame`); the in-profile, the unit and the pass roll are other objects -/
+theorem reused_out_profile_current_after_solve : ReusedOutCurrentAfterSolve .handOver := by
+  intro fuel s u p o gd hu hp hk ho hsep g hpub hnr
+  exact (solveU_reuse_current { P with reuse := .handOver } model_producers_safe rfl fuel s u p o gd hu hp hk ho hsep g
+    hpub hnr).1
+
+/-- …and so does the profile handed back to the caller (the public copy of the out-profile) -/
+theorem returned_profile_has_current_entries (fuel : Nat) (s : S) (u p o : Nat) (gd : Good s) (hu : u < s.h.next)
+    (hp : p < s.h.next) (hk : (s.h.obj u).kind = .unit) (ho : getF s.h u fOUT = some o)
+    (hsep : ∀ l c, getF s.h u fSUB = some l → c ∈ (s.h.obj l).items → ¬ Owned s.h c o)
+    (g : Nat) (hpub : isPublic g = true) (hnr : (outRoots (s.h.obj u).tag).contains g = false) :
+    getF (solveU Ph (fuel + 1) s u p).1.h (solveU Ph (fuel + 1) s u p).2 g = getF s.h p g :=
+  (solveU_reuse_current Ph model_producers_safe rfl fuel s u p o gd hu hp hk ho hsep g hpub hnr).2
+
+/-- no state leaks between solves through the re-used out-profile: a value `v` that the caller's profile of the current
+solve does not refer to - a value of the caller profile of an EARLIER solve, a result of the earlier solve - is,
+after the solve, referred to by no public entry of the out-profile other than (possibly) a root hook's, which the solve
+itself has set anew -/
+theorem no_state_leaks_through_reused_out_profile (fuel : Nat) (s : S) (u p o v : Nat) (gd : Good s)
+    (hu : u < s.h.next) (hp : p < s.h.next) (hk : (s.h.obj u).kind = .unit) (ho : getF s.h u fOUT = some o)
+    (hsep : ∀ l c, getF s.h u fSUB = some l → c ∈ (s.h.obj l).items → ¬ Owned s.h c o)
+    (hv : ∀ g, getF s.h p g ≠ some v) (g : Nat) (hpub : isPublic g = true)
+    (hnr : (outRoots (s.h.obj u).tag).contains g = false) :
+    getF (solveU Ph (fuel + 1) s u p).1.h o g ≠ some v := by
+  have e : getF (solveU Ph (fuel + 1) s u p).1.h o g = getF s.h p g :=
+    reused_out_profile_current_after_solve fuel s u p o gd hu hp hk ho hsep g hpub hnr
+  rw [e]; exact hv g
+
+/-- the step of `init_solve` itself, for ANY heap (no well-formedness needed), out-profile created or re-used: when it is
+done, the unit's out-profile has under every public name that is not a root hook what the incoming profile has -/
+theorem init_solve_hands_over_current_entries (tag : Nat) (s : S) (u p1 g : Nat) (hpub : isPublic g = true)
+    (hnr : (outRoots tag).contains g = false) :
+    getF (ensureOut .handOver tag s u p1).1.h (ensureOut .handOver tag s u p1).2 g = getF s.h p1 g :=
+  ensureOut_handOver_getF tag s u p1 g hpub hnr
+
+/-- the form `keep`: a re-used out-profile is exactly what the previous solve left -/
+theorem keep_form_reuses_as_is (tag : Nat) (s : S) (u p1 o : Nat) (ho : getF s.h u fOUT = some o) :
+    ensureOut .keep tag s u p1 = (s, o) := ensureOut_keep_reused tag s u p1 o ho
+
+/-! non-vacuity: the example heap with two caller profiles and a lone transport
+  13 material list and 14 tag set of the caller's profile 15 (entries 10 `material`, 13 `my_tags`);
+  16 another material list, of the caller's profile 17 (no tag set);  18 a transport without disk elements, list 19. -/
+def exL : S :=
+  let s1 := (ex0.alloc { kind := .value, content := [10] }).1
+  let s2 := (s1.alloc { kind := .value, content := [11] }).1
+  let s3 := (s2.alloc { kind := .profile, fields := [(fCS, 0), (fCL, 1), (10, 13), (13, 14)] }).1
+  let s4 := (s3.alloc { kind := .value, content := [12] }).1
+  let s5 := (s4.alloc { kind := .profile, fields := [(fCS, 0), (fCL, 1), (10, 16)] }).1
+  let s6 := (s5.alloc { kind := .unit, tag := 2 }).1
+  let s7 := (s6.alloc { kind := .subList, weak := some 18 }).1
+  s7.write 18 fSUB 19
+
+theorem exL_good : Good exL := by
+  have g1 := ex0_good.alloc { kind := .value, content := [10] } (by decide) (by decide) (by decide)
+  have g2 := g1.alloc { kind := .value, content := [11] } (by decide) (by decide) (by decide)
+  have g3 := g2.alloc { kind := .profile, fields := [(fCS, 0), (fCL, 1), (10, 13), (13, 14)] } (by decide) (by decide)
+    (by decide)
+  have g4 := g3.alloc { kind := .value, content := [12] } (by decide) (by decide) (by decide)
+  have g5 := g4.alloc { kind := .profile, fields := [(fCS, 0), (fCL, 1), (10, 16)] } (by decide) (by decide) (by decide)
+  have g6 := g5.alloc { kind := .unit, tag := 2 } (by decide) (by decide) (by decide)
+  have g7 := g6.alloc { kind := .subList, weak := some 18 } (by decide) (by decide) (by decide)
+  exact g7.write (o := 18) (f := fSUB) (v := 19) (by decide) (by decide) (by decide)
+
+/-- the example sequence 11 solved with the caller's profile 15, then again with the caller's profile 17 -/
+def exL2 (Q : Producers) : S :=
+  (solveU Q 4 { (solveU Q 4 { exL with its := [2, 1, 1, 1, 1, 1, 1, 1, 1] } 11 15).1 with
+    its := [2, 1, 1, 1, 1, 1, 1, 1, 1] } 11 17).1
+
+/-- the out-profiles of the sequence, the pass, the transport and the transport's disk element -/
+def exLouts (s : S) : List Nat :=
+  [getF s.h 11 fOUT, getF s.h 6 fOUT, getF s.h 9 fOUT, (subItems s.h 9).head?.bind (fun d => getF s.h d fOUT)].map
+    (·.getD 0)
+
+-- form `handOver`: after the second solve every out-profile of the tree (all four were re-used) has the CURRENT
+-- caller's material list 16 and no tag set; nothing refers to the earlier caller's 13 / 14 any more; the transport's
+-- `technologically_orientated_cross_section` (not a root hook of a transport) is the one the pass produced NOW
+set_option maxRecDepth 100000 in
+example : exLouts (exL2 Ph) = [21, 33, 47, 52] ∧
+    (exLouts (exL2 Ph)).all (fun o => getF (exL2 Ph).h o 10 == some 16 && getF (exL2 Ph).h o 13 == none &&
+      ((exL2 Ph).h.obj o).fields.all (fun e => e.2 != 13 && e.2 != 14)) = true ∧
+    getF (exL2 Ph).h 47 fTOCS = getF (exL2 Ph).h 33 fTOCS := by decide
+-- form `keep`: the same history leaves the FIRST caller's material list and tag set in every out-profile, and the
+-- transport's `technologically_orientated_cross_section` is the object the pass produced in the first solve
+set_option maxRecDepth 100000 in
+example : exLouts (exL2 Pk) = [21, 33, 47, 52] ∧
+    (exLouts (exL2 Pk)).all (fun o => getF (exL2 Pk).h o 10 == some 13 && getF (exL2 Pk).h o 13 == some 14) = true ∧
+    getF (exL2 Pk).h 47 fTOCS ≠ getF (exL2 Pk).h 33 fTOCS := by decide
+
+/-- the lone transport 18 solved once with the caller's profile 15 (out-profile 21, new empty sub-unit list 22) -/
+def exW (Q : Producers) : S := { (solveU Q 2 { exL with its := [1] } 18 15).1 with its := [1] }
+
+theorem exW_good (Q : Producers) (hQ : Q.Safe) : Good (exW Q) := by
+  have k := keeps_solve Q hQ (s := { exL with its := [1] }) ⟨exL_good.wf, exL_good.typed⟩ 2 18 15 (by decide)
+    (by decide) (by decide)
+  exact ⟨k.good.wf, k.good.typed⟩
+
+-- non-vacuity of the hypotheses of `reused_out_profile_current_after_solve` (the transport 18 solved before: `Good` is
+-- `exW_good`, the out-profile 21 is there, the sub-unit list 22 is empty), and the instance computed: after the second
+-- solve with profile 17 the out-profile 21 has 17's material list where it had 15's, and the tag set is gone
+set_option maxRecDepth 100000 in
+example : getF (exW Ph).h 18 fOUT = some 21 ∧ ((exW Ph).h.obj 18).kind = .unit ∧
+    getF (exW Ph).h 18 fSUB = some 22 ∧ ((exW Ph).h.obj 22).items = [] ∧
+    getF (exW Ph).h 21 10 = some 13 ∧
+    (∀ g ∈ [10, 13, 2, 11, 12], getF (solveU Ph 2 (exW Ph) 18 17).1.h 21 g = getF (exW Ph).h 17 g) := by decide
+
+/-- the form `keep` does NOT have the property: the transport 18, solved with the caller's profile 15 and then with the
+caller's profile 17, still has 15's material list 13 in its out-profile -/
+theorem keep_form_leaks : ¬ ReusedOutCurrentAfterSolve .keep := by
+  intro h
+  have hsafe : Pk.Safe := model_producers_safe
+  have hsep : ∀ l c, getF (exW Pk).h 18 fSUB = some l → c ∈ ((exW Pk).h.obj l).items → ¬ Owned (exW Pk).h c 21 := by
+    intro l c hl hc
+    have e : getF (exW Pk).h 18 fSUB = some 22 := by decide
+    rw [e] at hl
+    cases hl
+    have e2 : ((exW Pk).h.obj 22).items = [] := by decide
+    rw [e2] at hc
+    cases hc
+  have := h 1 (exW Pk) 18 17 21 (exW_good Pk hsafe) (by decide) (by decide) (by decide) (by decide) hsep
+    10 (by decide) (by decide)
+  revert this
+  decide
 
 end C12
